@@ -627,3 +627,73 @@ func VerifC12EdgeShapes() {
 	}
 	vassert(same(r), "a value that is written and read back without an error is deeply equal to the original, with the identical dynamic type")
 }
+
+// named container types that are NOT registered, held in interface-typed positions, and a registered struct that
+// embeds an unexported struct by pointer (its promoted fields are part of the value): the serialiser refuses them, or
+// returns a value of the identical dynamic type with the same content - never a different value
+type c12UnregTags []string
+type c12UnregAttrs map[string]int
+type c12UnregArr [2]int
+type c12helper struct{ History []string }
+type c12EmbP struct {
+	*c12helper
+	N int
+}
+
+func VerifC12UnregisteredShapes() {
+	c12Reg()
+	_ = GenericRegister[c12EmbP]("c12_embp")
+	kind := vchoose("shape", 4)
+	where := vchoose("where", 3)
+	var leaf any
+	switch kind {
+	case 0:
+		leaf = c12UnregTags{"a", "b"}
+	case 1:
+		leaf = c12UnregAttrs{"k": 1}
+	case 2:
+		leaf = c12UnregArr{1, 2}
+	case 3:
+		leaf = c12EmbP{&c12helper{History: []string{"h"}}, 3}
+	}
+	var v any
+	switch where {
+	case 0:
+		v = leaf
+	case 1:
+		v = map[string]any{"k": leaf}
+	case 2:
+		v = c12Struct{I: leaf}
+	}
+	r, err := c12Round(v)
+	if err != nil {
+		return // refused loudly
+	}
+	var got any
+	switch where {
+	case 0:
+		got = r
+	case 1:
+		m, ok := r.(map[string]any)
+		vassert(ok, "the container comes back as the same type")
+		got = m["k"]
+	case 2:
+		s, ok := r.(c12Struct)
+		vassert(ok, "the struct comes back as the same type")
+		got = s.I
+	}
+	switch kind {
+	case 0:
+		g, ok := got.(c12UnregTags)
+		vassert(ok && len(g) == 2 && g[0] == "a" && g[1] == "b", "a named slice that was accepted comes back as the same named type with the same items")
+	case 1:
+		g, ok := got.(c12UnregAttrs)
+		vassert(ok && len(g) == 1 && g["k"] == 1, "a named map that was accepted comes back as the same named type with the same entries")
+	case 2:
+		g, ok := got.(c12UnregArr)
+		vassert(ok && g[0] == 1 && g[1] == 2, "a named array that was accepted comes back as the same named type with the same items")
+	case 3:
+		g, ok := got.(c12EmbP)
+		vassert(ok && g.N == 3 && g.c12helper != nil && len(g.History) == 1 && g.History[0] == "h", "a struct embedding an unexported struct by pointer that was accepted comes back with its promoted fields")
+	}
+}
